@@ -112,6 +112,56 @@ def ops_of(e):
     return s
 
 
+def cli_leg(part, case, variant, probe_exe, out, owner):
+    """the user-visible path: the oRatio executable of the same build; exit code, solution file and the values in it"""
+    import os
+    bdir = os.path.dirname(probe_exe)
+    rc, so, js, crash = solverlib.run_cli(bdir, [case["text"]])
+    if rc is None:
+        part.inconc("timeout (search budget, CLI)")
+        return
+    if crash is not None:
+        part.inconc("abort (owned by C18): " + crash.site())
+        return
+    part.count("cli: runs")
+    part.count("cli: exit code %s" % rc)
+    wit = {"program": case["text"], "variant": variant, "stdout": so[-600:], "exit_code": rc}
+    probe_solved = out.status == "solved"
+    if rc == 0:
+        if js is None or js == "unparsable":
+            if owner == "C01":
+                part.violation("cli/no-solution-file", "oRatio exits with 0 ('hurray') but the solution file is %s" % ("missing" if js is None else "not valid JSON"), wit)
+            return
+        sol = solverlib.Solution(js)
+        bad, njudged = judge_constraints(case["cons"], sol)
+        part.count("cli: constraints evaluated on solution files", njudged)
+        for kind, txt, detail in bad:
+            if kind == "unjudged":
+                if owner == "C01" and probe_solved:
+                    try:
+                        pb, _ = judge_constraints([c for c in case["cons"] if riddle.show(c) == txt], solverlib.Solution(out.post))
+                    except Exception:
+                        pb = [("unjudged",)]
+                    if not pb or pb[0][0] != "unjudged":
+                        part.violation("cli/value-not-exposed", "the solution file written by oRatio does not expose a value the solver's state exposes: " + detail, dict(wit, constraint=txt))
+                continue
+            if owner != "C01":
+                continue
+            e = [c for c in case["cons"] if riddle.show(c) == txt][0]
+            if probe_solved and undecided_atom_inside(e, solverlib.Solution(out.post), out):
+                key = "solution-leaves-theory-atom-undecided"
+            else:
+                key = "cli/constraint-%s/%s" % (kind, "+".join(sorted(ops_of(e)))[:60])
+            part.violation(key, "oRatio exits with 0 and writes a solution in which " + detail, dict(wit, constraint=txt, detail=detail))
+        if not probe_solved and owner == "C02":
+            part.violation("cli/verdict-differs", "the library declares the problem unsolvable when driven through solver::read/solve directly but the oRatio executable of the same build reports a solution", wit)
+    elif rc == 1:
+        if js is not None and owner == "C01":
+            part.violation("cli/solution-file-without-solution", "oRatio exits with 1 but wrote a solution file", wit)
+        if probe_solved and "unsolvable" in so and owner == "C02":
+            part.violation("cli/declared-unsolvable", "the oRatio executable declares unsolvable a problem the same library solves when driven directly", wit)
+
+
 def cons_work(exes, start, n, owner):
     part = common.Partial()
     rnd = common.rng("CONS", start)
@@ -130,6 +180,8 @@ def cons_work(exes, start, n, owner):
             continue
         part.count("cons: programs (%s)" % variant)
         part.count("cons: outcome " + st)
+        if (start + i) % 3 == 0 and st in ("solved", "unsolvable"):
+            cli_leg(part, case, variant, exes[variant], out, owner)
         if st == "solved":
             sol = solverlib.Solution(out.post)
             bad, njudged = judge_constraints(case["cons"], sol)
@@ -182,7 +234,7 @@ def cons_work(exes, start, n, owner):
 def run(tier):
     res = common.Result(PID, tier, "constraint-network programs (1-5 real/int variables, 0-3 booleans, 2-8 random constraints over + - * / relations & | ^ -> ! ==, 80% built around "
                         "a planted assignment) run through read()+solve() in the configuration matrix (h_max/h_add x CHECK_INCONSISTENCIES on/off x Debug/Release); "
-                        "every asserted constraint is evaluated with exact (rational, eps) arithmetic on the values the solution JSON exposes and must be True; "
+                        "every asserted constraint is evaluated with exact (rational, eps) arithmetic on the values the solution JSON exposes and must be True; every third program also goes through the oRatio executable of the same build (exit code, solution file, values in it); "
                         "further families (objects, rules, timelines) are added by the same oracle; non-trivial = solve() returned true and at least one "
                         "constraint was evaluated")
     res.assumptions = ["values are read from core::to_json (the JSON a user gets); int variables are treated as reals (the network does not enforce integrality)"]
@@ -193,6 +245,7 @@ def run(tier):
     from checks import plan
     plan.run_families(res, exes, tier, PID)
     res.gate("solutions evaluated", res.counters.get("cons: constraints evaluated on solutions", 0) > 500)
+    res.gate("solution files written by the oRatio executable evaluated", res.counters.get("cli: constraints evaluated on solution files", 0) > 100)
     for v in exes:
         res.gate("configuration %s exercised" % v, res.counters.get("cons: programs (%s)" % v, 0) > 0)
     return res.finish()
